@@ -87,7 +87,7 @@ class Ops:
         if isinstance(v, VSeq):
             return z3.Length(self.st.heap[(v.ref, "seq")]) > 0
         if getattr(v, "kind", "") == "mapped":
-            return self.truth(v.base)
+            return True if v.conds else self.truth(v.base)     # a generator object is truthy; the tuple of an image is non-empty iff its base is
         if isinstance(v, VSet):
             return self.st.heap[(v.ref, "set")] != z3.K(v_sort(v.elem), z3.BoolVal(False))
         if isinstance(v, VMap):
